@@ -1,0 +1,44 @@
+//go:build verif
+// +build verif
+
+package golang
+
+import (
+	"github.com/kyleconroy/sqlc/internal/compiler"
+	"github.com/kyleconroy/sqlc/internal/config"
+)
+
+// Verification hooks (build tag `verif` only): thin exported wrappers around unexported
+// functions so that an external harness can drive them directly. They add no behaviour.
+
+func VerifGoType(r *compiler.Result, col *compiler.Column, settings config.CombinedSettings) string {
+	return goType(r, col, settings)
+}
+
+func VerifColumnsToStruct(r *compiler.Result, name string, ids []int, cols []*compiler.Column, settings config.CombinedSettings) *Struct {
+	gc := make([]goColumn, len(cols))
+	for i := range cols {
+		gc[i] = goColumn{id: ids[i], Column: cols[i]}
+	}
+	return columnsToStruct(r, name, gc, settings)
+}
+
+func VerifBuildEnums(r *compiler.Result, settings config.CombinedSettings) []Enum {
+	return buildEnums(r, settings)
+}
+
+func VerifBuildStructs(r *compiler.Result, settings config.CombinedSettings) []Struct {
+	return buildStructs(r, settings)
+}
+
+func VerifBuildQueries(r *compiler.Result, settings config.CombinedSettings, structs []Struct) []Query {
+	return buildQueries(r, settings, structs)
+}
+
+func VerifImports(settings config.CombinedSettings, enums []Enum, structs []Struct, queries []Query, filename string) [][]ImportSpec {
+	i := &importer{Settings: settings, Queries: queries, Enums: enums, Structs: structs}
+	return i.Imports(filename)
+}
+
+func VerifParamName(p compiler.Parameter) string { return paramName(p) }
+func VerifArgName(name string) string             { return argName(name) }
